@@ -15,7 +15,6 @@ import (
 	"bytes"
 	"fmt"
 	"hash/fnv"
-	"os"
 	mrand "math/rand"
 	"runtime/debug"
 	"strings"
@@ -231,24 +230,8 @@ func c09Call(in *c09Input) (more bool, err error, panicked string) {
 	return more, err, ""
 }
 
-// c09KnownTrigger excludes the one input shape of the finding "emptykey-noproof"
-// (notes/C09.md: a single zero-length key verified without proof panics in
-// writeHexKey via StackTrie.Update), and only if the lead's known_findings.json
-// lists it. The monotonicity and prefix pre-checks make this the only shape that
-// reaches StackTrie.Update with an empty key.
-func c09KnownTrigger(in *c09Input) bool {
-	if !(in.NoProof && len(in.Keys) == 1 && len(in.Vals) == 1 && len(in.Keys[0]) == 0 && len(in.Vals[0]) > 0) {
-		return false
-	}
-	return vs.Known("TestVerifC09Range", "emptykey-noproof") || os.Getenv("VERIF_C09_DEV_KNOWN") == "1"
-}
-
 // c09Check evaluates one input against the oracle and records statistics.
 func c09Check(t pgFataler, st *vs.S, in *c09Input, honest bool) {
-	if c09KnownTrigger(in) {
-		st.Excluded()
-		return
-	}
 	c := st.Case()
 	inDomain, truthful, wantMore := c09Truth(in)
 	more, err, panicked := c09Call(in)
@@ -919,6 +902,65 @@ func TestVerifC09SmallExhaustive(t *testing.T) {
 		}
 	}
 	st.Exhaustive(fmt.Sprintf("%d tries = all non-empty subsets of a 6-key universe x %d value sizes: every run boundary, start-key kind and single-entry tampering with the full node bag", worlds, len(valLens)))
+}
+
+// TestVerifC09EmptyKey pins the input class of the fixed finding "emptykey-noproof"
+// (known_findings.json, c97ddfe613): a zero-length key, alone or leading a run, with
+// and without proof, against empty, populated and arbitrary roots. Every such input
+// must be rejected with an error (a zero-length key is never an entry of a trie with
+// fixed-length keys >= 1 byte, and never of the empty trie) and must not panic.
+func TestVerifC09EmptyKey(t *testing.T) {
+	vs.OnlyShard0(t)
+	st := vs.New("C09", t)
+	empty, err := pgBuildWorld("emptytrie", 1, nil, nil, false)
+	if err != nil {
+		t.Fatalf("VERIF-HARNESS-BUG: %v", err)
+	}
+	one, err := pgBuildWorld("onekey", 1, []pgKV{{K: []byte{0x00}, V: []byte{0x01}}}, nil, false)
+	if err != nil {
+		t.Fatalf("VERIF-HARNESS-BUG: %v", err)
+	}
+	four, err := pgBuildWorld("fourkeys", 2, []pgKV{{K: []byte{0, 0}, V: []byte{1}}, {K: []byte{0, 1}, V: bytes.Repeat([]byte{2}, 33)},
+		{K: []byte{0x10, 0}, V: []byte{3}}, {K: []byte{0xff, 0xff}, V: []byte{4}}}, nil, false)
+	if err != nil {
+		t.Fatalf("VERIF-HARNESS-BUG: %v", err)
+	}
+	// the honest no-proof verification of the empty trie is accepted
+	c09Check(t, st, &c09Input{W: empty, NoProof: true, I: 0, J: -1, Kind: "noproof"}, true)
+	for _, w := range []*pgWorld{empty, one, four} {
+		for _, first := range [][]byte{nil, {}, make([]byte, w.KeyLen), bytes.Repeat([]byte{0xff}, w.KeyLen)} {
+			for _, val := range [][]byte{{0x01}, bytes.Repeat([]byte{0x07}, 33)} {
+				for _, rest := range []int{0, 1, len(w.Ents)} {
+					if rest > len(w.Ents) {
+						continue
+					}
+					for _, proofKind := range []string{"nil", "emptydb", "genuine"} {
+						in := &c09Input{W: w, First: first, Keys: [][]byte{{}}, Vals: [][]byte{val}, Kind: "emptykey", Tags: []string{"emptykey-" + proofKind}}
+						ks, vsl := pgRun(w.Ents[:rest])
+						in.Keys, in.Vals = append(in.Keys, ks...), append(in.Vals, vsl...)
+						switch proofKind {
+						case "nil":
+							in.NoProof = true
+						case "genuine":
+							in.Nodes = w.pgGenuine()
+						}
+						c := st.Case()
+						c.Fault()
+						more, err, panicked := c09Call(in)
+						if panicked != "" {
+							t.Fatalf("VerifyRangeProof panicked: %s\ninput: %s", panicked, in)
+						}
+						if err == nil {
+							t.Fatalf("range with a zero-length key accepted (more=%v)\ninput: %s", more, in)
+						}
+						c.Classf("T:emptykey-%s", proofKind)
+						c.NonTrivial(c09PassesPrechecks(in), c09Descriptor(in))
+					}
+				}
+			}
+		}
+	}
+	st.Exhaustive("zero-length leading key x {empty, 1-entry, 4-entry trie} x 4 start keys x 2 value sizes x {no proof, empty proof db, all genuine nodes}")
 }
 
 // FuzzVerifC09Rapid drives the rapid property from the native fuzzer's byte stream.
